@@ -27,6 +27,11 @@ impl DocCommentTable {
         ret
     }
 
+    /// Forgets the doc comments of one file (before it is parsed again).
+    pub fn drop(&mut self, path: PathId) {
+        self.table.retain(|(p, _), _| *p != path);
+    }
+
     pub fn clear(&mut self) {
         self.table.clear();
     }
@@ -46,6 +51,10 @@ pub fn get(path: PathId, line: u32) -> Option<StrId> {
 /// Used by fragment caching.
 pub fn export_by_path(path: PathId) -> Vec<(u32, StrId)> {
     DOC_COMMENT_TABLE.with(|f| f.borrow().export_by_path(path))
+}
+
+pub fn drop(path: PathId) {
+    DOC_COMMENT_TABLE.with(|f| f.borrow_mut().drop(path))
 }
 
 pub fn clear() {
